@@ -149,6 +149,22 @@ func runC01(r *ev.Run) {
 	u1 := positions.Load()
 	r.Set("u1_positions", u1)
 	r.Set("u1_complete", complete)
+	// the rights- and en-passant-bearing positions of further classes (castling out of / through / into attack by
+	// every kind of attacker, rights lost by capture on the corners, en-passant captures with pins)
+	visitSpecial := func(w *c01Worker, p *refchess.Pos) {
+		b := w.ld.Load(p)
+		check(w.ms, b, p, func() c01Case { return c01Case{FEN: p.FEN(), How: "fen"} })
+		stat(p)
+		r.Nontrivial.Add(1)
+	}
+	castling := parseClasses([]string{"KRkr", "KRkb", "KRkn", "KRkq", "KRRk", "KRkp", "KRPk", "KQkr", "KBkr", "KNkr"})
+	forCastlingPositions(r, castling, newW, visitSpecial)
+	pawnEP := parseClasses(ev.Pick(r, []string{}, []string{"KPkp", "KPPk", "Kkpp"}))
+	if len(pawnEP) > 0 {
+		forClasses(r, pawnEP, universe.Opts{OnlySpecial: true, NoRights: true}, newW, visitSpecial)
+	}
+	r.Set("castling_subclasses", classNames(castling))
+	r.Set("en_passant_subclasses", classNames(pawnEP))
 	if r.Thorough() {
 		// constrained 5-man classes: the lone side's king confined to the corner region
 		five := []string{"KRPkp", "KBNkp", "KQPkr", "KNPkb"}
